@@ -215,6 +215,59 @@ def report(prop, tier, t0, results, mc_results, extra_cov=None, extra_viol=None)
     return rc
 
 
+def binding_selftest(wd, trace):
+    """Demonstrates that the trace specification is bound to what was recorded: corrupt one recorded
+    field / remove one event of an accepted trace and require PTrace to object."""
+    with open(trace) as f:
+        lines = [json.loads(l) for l in f]
+    out = {}
+
+    def run(name, mutate):
+        ls = [dict(x) for x in lines]
+        if not mutate(ls):
+            out[name] = "not applicable to this trace"
+            return
+        path = os.path.join(wd, f"selftest_{name}.ndjson")
+        with open(path, "w") as f:
+            for x in ls:
+                f.write(json.dumps(x) + "\n")
+        try:
+            r = validate([path], wd)[0]
+            out[name] = "rejected" if r["viols"] else "ACCEPTED (binding broken)"
+        except ToolError:
+            out[name] = "rejected (trace not consumable)"
+
+    def flip_row(ls):
+        for x in ls:
+            for row in x.get("opens", []):
+                if row["r"] == "same":
+                    row["r"] = "none"
+                    return True
+        return False
+
+    def flip_result(ls):
+        for x in ls:
+            if x.get("op") in ("rekey", "keygen") and x.get("res") == "ok":
+                x["res"] = "err"
+                x["unchanged"] = True
+                return True
+        return False
+
+    def drop_update(ls):
+        idx = [i for i, x in enumerate(ls) if x.get("op") == "update" and x.get("res") == "ok"]
+        if not idx:
+            return False
+        del ls[idx[0]]
+        return True
+
+    run("decapsulation_verdict_flipped", flip_row)
+    run("call_result_flipped", flip_result)
+    run("update_event_removed", drop_update)
+    if any(v.startswith("ACCEPTED") for v in out.values()):
+        raise ToolError(f"binding self-test failed: {out}")
+    return out
+
+
 def regress_files(prop):
     return sorted(glob.glob(os.path.join(SPEC, "regress", "*.ndjson")))
 
@@ -229,26 +282,38 @@ def check(prop, tier):
     traces += gen_replays(wd, regress_files(prop), "regress")
     beh = [m["behaviours"] for m in mc_results if m.get("behaviours")]
     traces += gen_replays(wd, beh, "beh")
+    # the repository's own tests, run with the event log on (B2c)
+    import repotests
+    rt_path, rt_cov = repotests.trace(wd)
+    traces.append(rt_path)
     results = validate(traces, wd)
     extra_cov, extra_viol = {}, []
+    extra_cov.update(rt_cov)
+    if tier == "thorough":
+        extra_cov["binding_selftest"] = binding_selftest(wd, traces[0])
     if prop == "C13":
         import golden
-        extra_cov, extra_viol = golden.run(wd)
+        c, extra_viol = golden.run(wd)
+        extra_cov.update(c)
     if prop in ("C10", "C17"):
         # a REJECTED refresh of a forged key must leave both keys (and the registered identifiers) untouched
         import satellites
-        extra_viol, extra_cov = satellites.c08_viols(tier, wd, prop, only={"modified-on-reject", "issued-refused"})
+        extra_viol, c = satellites.c08_viols(tier, wd, prop, only={"modified-on-reject", "issued-refused"})
+        extra_cov.update(c)
     if prop == "C11":
         # "carries ML-KEM ciphertexts bound into the tag": tampering with the ciphertexts must be detected
         import satellites
-        extra_viol, extra_cov = satellites.c07_viols(tier, wd, prop)
+        extra_viol, c = satellites.c07_viols(tier, wd, prop)
+        extra_cov.update(c)
     if prop == "C09":
         # "a forged user key" is one of the documented error causes: the tamper kinds of UskMac.tla
         import satellites
-        extra_viol, extra_cov = satellites.c08_viols(tier, wd, "C09")
+        extra_viol, c = satellites.c08_viols(tier, wd, "C09")
+        extra_cov.update(c)
     if prop == "C16":
         import satellites
-        extra_viol, extra_cov = satellites.c16_fresh(tier, wd)
+        extra_viol, c = satellites.c16_fresh(tier, wd)
+        extra_cov.update(c)
     return report(prop, tier, t0, results, mc_results, extra_cov, extra_viol)
 
 
